@@ -331,6 +331,33 @@ pub enum OddNames {
 #[cfg(not(verif_no_edge))]
 proj_enum!(OddNames { Coffee, Tea, Green, Long });
 
+#[cfg(not(verif_no_edge))]
+/// non-ASCII variant identifiers under rename_all = lowercase (Unicode lower-casing); a variant renamed to "" (round 8)
+#[derive(Deserr, Debug)]
+#[deserr(rename_all = lowercase)]
+pub enum LowerUnicodeUnit {
+    Éclair,
+    CrèmeBrÛlée,
+    #[deserr(rename = "")]
+    Unset,
+    Plain,
+}
+#[cfg(not(verif_no_edge))]
+proj_enum!(LowerUnicodeUnit { Éclair, CrèmeBrÛlée, Unset, Plain });
+
+#[cfg(not(verif_no_edge))]
+#[derive(Deserr, Debug)]
+#[deserr(tag = "kind", rename_all = lowercase)]
+pub enum LowerUnicodeTagged {
+    Éclair { xx: u8 },
+    ÑandÚ,
+    #[deserr(rename = "")]
+    Unset { yy: bool },
+    Plain,
+}
+#[cfg(not(verif_no_edge))]
+proj_enum!(LowerUnicodeTagged { Éclair { xx }, ÑandÚ, Unset { yy }, Plain });
+
 /// PascalCase identifiers with digits: camelCase only lowers the first letter
 #[derive(Deserr, Debug)]
 #[deserr(tag = "v", rename_all = camelCase)]
@@ -684,6 +711,27 @@ pub struct DenyCustom {
     count: u8,
 }
 proj_struct!(DenyCustom { word, count });
+
+/// custom unknown-key / missing-field functions that return an error type of their own (round 8)
+#[derive(Deserr, Debug)]
+#[deserr(deny_unknown_fields = vf::unknown_foreign, where_predicate = __Deserr_E: deserr::MergeWithError<vf::Denied> + deserr::MergeWithError<vf::Needed>)]
+pub struct ForeignFns {
+    #[deserr(missing_field_error = vf::missing_foreign)]
+    id: u32,
+    name: String,
+    #[deserr(missing_field_error = vf::missing_foreign)]
+    zeta: bool,
+}
+proj_struct!(ForeignFns { id, name, zeta });
+
+#[derive(Deserr, Debug)]
+#[deserr(where_predicate = __Deserr_E: deserr::MergeWithError<vf::Denied> + deserr::MergeWithError<vf::Needed>)]
+pub struct ForeignFnsOuter {
+    first: bool,
+    inner: ForeignFns,
+    list: Vec<ForeignFns>,
+}
+proj_struct!(ForeignFnsOuter { first, inner, list });
 
 #[derive(Deserr, Debug)]
 #[deserr(deny_unknown_fields)]
@@ -1187,6 +1235,12 @@ pub fn defs() -> Defs {
         )
     }));
     d.add(Def::UnitEnum(udef("OddNames", &[("Coffee", "café"), ("Tea", "thé"), ("Green", "日本茶"), ("Long", "a_very_long_variant_name_for_the_largest_budget")])));
+    d.add(Def::UnitEnum(udef("LowerUnicodeUnit", &[("Éclair", "éclair"), ("CrèmeBrÛlée", "crèmebrûlée"), ("Unset", ""), ("Plain", "plain")])));
+    d.add(Def::Enum(edef(
+        "LowerUnicodeTagged",
+        "kind",
+        vec![vd("Éclair", "éclair", Some(vec![f("xx", u(8))])), vd("ÑandÚ", "ñandú", None), vd("Unset", "", Some(vec![f("yy", Ty::Bool)])), vd("Plain", "plain", None)],
+    )));
     d.add(Def::Enum(edef("DigitVariants", "v", vec![vd("V2Beta", "v2Beta", Some(vec![f("xx", u(8))])), vd("Utf8Lossy", "utf8Lossy", None), vd("Plain7", "plain7", None)])));
     d.add(Def::UnitEnum(udef("DigitUnit", &[("V2Beta", "v2Beta"), ("Utf8Lossy", "utf8Lossy"), ("Sha256", "sha256")])));
     d.add(st(StructDef {
@@ -1311,6 +1365,11 @@ pub fn defs() -> Defs {
     d.add(st(StructDef { deny: Deny::Default, ..sdef("DenyS", vec![f("alpha", u(8)), f("beta", opt(Ty::Str)), f("gamma", Ty::Bool).key("GAMMA")]) }));
     d.add(st(StructDef { deny: Deny::Custom("unknown_unexp".into()), ..sdef("DenyCustom", vec![f("word", Ty::Str), f("count", u(8)).default(pu(0))]) }));
     d.add(st(StructDef { deny: Deny::Default, ..sdef("DenySkip", vec![f("a", u(8)), f("hidden", u(8)).skip(pu(0)), f("b", Ty::Bool)]) }));
+    d.add(st(StructDef {
+        deny: Deny::Custom("unknown_foreign".into()),
+        ..sdef("ForeignFns", vec![f("id", u(32)).missing("missing_foreign"), f("name", Ty::Str), f("zeta", Ty::Bool).missing("missing_foreign")])
+    }));
+    d.add(st(sdef("ForeignFnsOuter", vec![f("first", Ty::Bool), f("inner", named("ForeignFns")), f("list", vec(named("ForeignFns")))])));
     d.add(st(sdef("MissingCustom", vec![f("a", u(8)).missing("missing_unexp"), f("b", Ty::Str).missing("missing_mf"), f("c", Ty::Bool)])));
     d.add(st(sdef(
         "ConvS",
@@ -1546,6 +1605,10 @@ pub fn registry() -> Registry {
     r.all::<OddKeys>("OddKeys", named("OddKeys"), &["derive", "rename", "deny", "default"]);
     #[cfg(not(verif_no_edge))]
     r.all::<OddNames>("OddNames", named("OddNames"), &["derive", "unit-enum", "rename"]);
+    #[cfg(not(verif_no_edge))]
+    r.all::<LowerUnicodeUnit>("LowerUnicodeUnit", named("LowerUnicodeUnit"), &["derive", "unit-enum", "rename"]);
+    #[cfg(not(verif_no_edge))]
+    r.all::<LowerUnicodeTagged>("LowerUnicodeTagged", named("LowerUnicodeTagged"), &["derive", "enum", "rename"]);
     r.all::<DigitVariants>("DigitVariants", named("DigitVariants"), &["derive", "enum", "rename"]);
     r.all::<DigitUnit>("DigitUnit", named("DigitUnit"), &["derive", "unit-enum", "rename"]);
     #[cfg(not(verif_no_edge))]
@@ -1588,6 +1651,8 @@ pub fn registry() -> Registry {
     r.all::<DenyS>("DenyS", named("DenyS"), &["derive", "deny"]);
     r.all::<DenyCustom>("DenyCustom", named("DenyCustom"), &["derive", "deny", "custom-fn"]);
     r.all::<DenySkip>("DenySkip", named("DenySkip"), &["derive", "deny", "skip"]);
+    r.all::<ForeignFns>("ForeignFns", named("ForeignFns"), &["derive", "deny", "custom-fn", "foreign-fn"]);
+    r.all::<ForeignFnsOuter>("ForeignFnsOuter", named("ForeignFnsOuter"), &["derive", "deny", "custom-fn", "foreign-fn"]);
     r.all::<MissingCustom>("MissingCustom", named("MissingCustom"), &["derive", "custom-fn"]);
     r.all::<ConvS>("ConvS", named("ConvS"), &["derive", "conv"]);
     r.all::<FromNamedFrom>("FromNamedFrom", named("FromNamedFrom"), &["derive", "conv", "default"]);
